@@ -147,6 +147,49 @@ pub fn check_exactly_once(out: &mut Out, prop: &str, r: &Round, replay: &dyn Fn(
     ok
 }
 
+/// With fault injection on, replies may be deliberately invalid; what must still hold is the
+/// count: per socket, at least as many datagrams as requests that must be answered and at
+/// most as many as requests that may be; none on sockets that sent only rejectable datagrams.
+pub fn check_counts_only(out: &mut Out, prop: &str, r: &Round, replay: &dyn Fn() -> serde_json::Value) {
+    let mut must: HashMap<usize, usize> = HashMap::new();
+    let mut may: HashMap<usize, usize> = HashMap::new();
+    for s in &r.sent {
+        if s.sock == SPOOF_PORT0 {
+            continue;
+        }
+        match s.expect {
+            Expect::Must => {
+                *must.entry(s.sock).or_default() += 1;
+                *may.entry(s.sock).or_default() += 1;
+            }
+            Expect::May => *may.entry(s.sock).or_default() += 1,
+            Expect::MustNot => {}
+        }
+    }
+    let mut got: HashMap<usize, usize> = HashMap::new();
+    for rep in &r.replies {
+        *got.entry(rep.sock).or_default() += 1;
+        out.obs("replies_received", 1);
+        out.obs("replies_counted_under_fault_injection", 1);
+    }
+    let socks: std::collections::HashSet<usize> = must.keys().chain(may.keys()).chain(got.keys()).copied().collect();
+    for s in socks {
+        let g = got.get(&s).copied().unwrap_or(0);
+        let lo = must.get(&s).copied().unwrap_or(0);
+        let hi = may.get(&s).copied().unwrap_or(0);
+        if (g < lo && !r.drops_moved) || g > hi {
+            out.violation(
+                &format!("{} datagram-count-differs under-fault-injection {}", prop, if g < lo { "too-few" } else { "too-many" }),
+                &format!("socket {} sent {} requests that must be answered (at most {} answerable) and received {} datagrams", s, lo, hi, g),
+                replay(),
+            );
+        }
+    }
+    if r.late_replies > 0 && r.panic.is_none() {
+        out.violation(&format!("{} replies-stranded-until-further-traffic", prop), "replies arrived only after later traffic", replay());
+    }
+}
+
 /// stable class of a verifier reason, for signatures
 pub fn reason_class(why: &str) -> &'static str {
     if why.contains("do not recompute ROOT") {
@@ -215,6 +258,13 @@ fn history(ctx: &Ctx, out: &mut Out, rng: &mut Rng, prop: &str, idx: u64) {
             cfg.persist = Some(ctx.scratch.clone());
         }
     }
+    // one history in eight runs with fault injection on: the deliberately corrupted replies need
+    // not verify, but exactly one datagram per accepted request must still reach its sender
+    let greased = !c02 && !stats && idx % 8 == 5;
+    if greased {
+        cfg.fault_percentage = *rng.pick(&[1u8, 10, 50]);
+        out.obs("histories_with_fault_injection", 1);
+    }
     let nsocks = rng.range(2, 64) as usize;
     let mut d = match Driver::new(cfg.clone(), nsocks) {
         Ok(d) => d,
@@ -225,7 +275,11 @@ fn history(ctx: &Ctx, out: &mut Out, rng: &mut Rng, prop: &str, idx: u64) {
     };
     let srv = d.srv_value.clone();
     let b = cfg.batch_size as usize;
-    let nrounds = rng.range(1, if c02 { 12 } else { 6 }) as usize;
+    // mostly short histories; one in sixteen keeps one server busy for many bursts
+    let nrounds = if !c02 && idx % 16 == 9 { rng.range(30, 80) as usize } else { rng.range(1, if c02 { 12 } else { 6 }) as usize };
+    if nrounds >= 30 {
+        out.obs("long_histories", 1);
+    }
     let mut rounds: Vec<Vec<(usize, Vec<u8>)>> = Vec::new();
     let mut earlier_nonces: Vec<(Proto, Vec<u8>, usize)> = Vec::new();
     let mut total_sent = 0usize;
@@ -288,8 +342,12 @@ fn history(ctx: &Ctx, out: &mut Out, rng: &mut Rng, prop: &str, idx: u64) {
         }
         out.obs("rounds", 1);
         out.obs("datagrams_sent", r.sent.len() as i64);
-        verified_here += check_exactly_once(out, prop, &r, &rp);
-        check_batches(out, prop, &r, cfg.batch_size, &rp);
+        if greased {
+            check_counts_only(out, prop, &r, &rp);
+        } else {
+            verified_here += check_exactly_once(out, prop, &r, &rp);
+            check_batches(out, prop, &r, cfg.batch_size, &rp);
+        }
         if r.drops_moved {
             out.inconclusive("kernel drop counter moved");
             break;
@@ -418,7 +476,7 @@ pub fn run(ctx: &Ctx, out: &mut Out, prop: &str) {
     }
     let n = match prop {
         "C17" => ctx.share(800, 16_000),
-        _ => ctx.share(3_200, 48_000),
+        _ => ctx.share(2_400, 48_000),
     };
     for i in 0..n {
         history(ctx, out, &mut rng, prop, i * ctx.nshards + ctx.shard);
